@@ -121,7 +121,7 @@ func VFAIL_JSONNumbers(h *rt.H) {
 	case 2:
 		cuts := make([]bool, len(doc))
 		cuts[h.Choose("cut", 0, len(doc)-2)] = true
-		_, err = jsonCodec.parseReader(&chunkReader{doc: cloneBytes(doc), cuts: cuts}, &rec)
+		_, err = jsonCodec.parseReader(newChunkReader(h, doc, cuts), &rec)
 	}
 	h.Assert("error-returned", err == ev.ErrInjected)
 	h.Assert("no-event-after", rec.After == 0)
